@@ -15,6 +15,7 @@ package apph
 
 import (
 	"bytes"
+	"crypto/ecdsa"
 	"crypto/sha256"
 	"crypto/sha512"
 	"encoding/hex"
@@ -49,6 +50,7 @@ type sigKey struct {
 	Priv keys.PrivateKey
 	Pub  keys.PublicKey
 	Addr keys.Address // what the repo's handler says
+	raw  []byte       // private key bytes, for signing with the libraries directly
 }
 
 func newSigKey(seed uint64, name string, alg keys.Algorithm) *sigKey {
@@ -78,7 +80,7 @@ func newSigKey(seed uint64, name string, alg keys.Algorithm) *sigKey {
 		pk33 := sk.PubKey().(tmsecp.PubKeySecp256k1)
 		pub = keys.PublicKey{KeyType: keys.SECP256K1, Data: append([]byte{}, pk33[:]...)}
 	}
-	k := &sigKey{Alg: alg, Priv: priv, Pub: pub}
+	k := &sigKey{Alg: alg, Priv: priv, Pub: pub, raw: raw}
 	if hh, err := pub.GetHandler(); err == nil {
 		k.Addr = hh.Address()
 	} else {
@@ -87,18 +89,64 @@ func newSigKey(seed uint64, name string, alg keys.Algorithm) *sigKey {
 	return k
 }
 
-// sign produces the signature a client holding the key would produce over msg.
+// sign produces the signature a client holding the key would produce over msg, with the
+// LIBRARIES directly (not with data/keys' private-key handlers): ed25519 and secp256k1 as
+// tendermint defines them, ETHSECP = go-ethereum over a 32-byte digest, BTCEC = ECDSA over
+// SHA-256(msg), DER encoded.
 func (k *sigKey) sign(msg []byte) []byte {
-	ph, _ := k.Priv.GetHandler()
-	m := msg
-	if k.Alg == keys.ETHSECP && len(msg) != 32 {
-		m = ethcrypto.Keccak256(msg) // crypto.Sign only signs 32-byte digests
+	var s []byte
+	var err error
+	switch k.Alg {
+	case keys.ED25519:
+		var sk tmed.PrivKeyEd25519
+		copy(sk[:], k.raw)
+		s, err = sk.Sign(msg)
+	case keys.SECP256K1:
+		var sk tmsecp.PrivKeySecp256k1
+		copy(sk[:], k.raw)
+		s, err = sk.Sign(msg)
+	case keys.ETHSECP:
+		m := msg
+		if len(msg) != 32 {
+			m = ethcrypto.Keccak256(msg) // crypto.Sign only signs 32-byte digests
+		}
+		var ek *ecdsa.PrivateKey
+		if ek, err = ethcrypto.ToECDSA(k.raw); err == nil {
+			s, err = ethcrypto.Sign(m, ek)
+		}
+	case keys.BTCECSECP:
+		priv, _ := btcec.PrivKeyFromBytes(btcec.S256(), k.raw)
+		h := sha256.Sum256(msg)
+		var ds *btcec.Signature
+		if ds, err = priv.Sign(h[:]); err == nil {
+			s = ds.Serialize()
+		}
 	}
-	s, err := ph.Sign(m)
 	if err != nil {
 		panic(err)
 	}
 	return s
+}
+
+// signRepo signs with the repo's own private-key handler (what the repo's client tools produce);
+// falls back to the library where the handler refuses (ETHSECP signs 32-byte digests only).
+func (k *sigKey) signRepo(msg []byte) []byte {
+	if ph, err := k.Priv.GetHandler(); err == nil {
+		if s, err := ph.Sign(msg); err == nil {
+			return s
+		}
+	}
+	return k.sign(msg)
+}
+
+// acct presents the key as an account of the application-level generator; repoSigner selects
+// the repo's private-key handler instead of the libraries for signing.
+func (k *sigKey) acct(name string, repoSigner bool) *Acct {
+	a := &Acct{Name: name, Priv: k.Priv, Pub: k.Pub, Addr: append(keys.Address{}, k.Addr...), signWith: k.sign}
+	if repoSigner {
+		a.signWith = k.signRepo
+	}
+	return a
 }
 
 // ---- the library primitives, called directly (independent of data/keys' handlers)
@@ -149,8 +197,10 @@ func primAddr(pk keys.PublicKey) ([]byte, bool) {
 	return nil, false
 }
 
-// primVerify: does sig verify over msg under pk, by the underlying library alone (BTCEC: DER
-// signature over msg as given, what PrivateKeyBTCEC.Sign produces).
+// primVerify: does sig verify over msg under pk, by the underlying library alone. BTCEC is
+// DEFINED here independently of the handler: ECDSA over SHA-256(msg), DER encoded (an earlier
+// version of this oracle copied the handler, which handed msg to ECDSA as a digest — cut to 32
+// bytes — and so mirrored the defect repaired in /repo b2b7e17).
 func primVerify(pk keys.PublicKey, msg, sig []byte) (ok bool) {
 	defer func() {
 		if recover() != nil {
@@ -212,7 +262,8 @@ func primVerify(pk keys.PublicKey, msg, sig []byte) (ok bool) {
 		if err != nil {
 			return false
 		}
-		return ds.Verify(msg, p)
+		h := sha256.Sum256(msg)
+		return ds.Verify(h[:], p)
 	}
 	return false
 }
@@ -474,9 +525,16 @@ func genVB(r *rng.R, pool *keyPool) vbCase {
 		ks = append(ks, pool.pick(r, a))
 	}
 	c := vbCase{Class: class, Data: data}
+	// two kinds of client: one signing with the libraries as the scheme is specified, one with
+	// the repo's own private-key handlers
+	repoClient := r.Intn(3) == 0
 	for _, k := range ks {
 		c.Signers = append(c.Signers, append(keys.Address{}, k.Addr...))
-		c.Sigs = append(c.Sigs, action.Signature{Signer: k.Pub, Signed: k.sign(data)})
+		sg := k.sign(data)
+		if repoClient {
+			sg = k.signRepo(data)
+		}
+		c.Sigs = append(c.Sigs, action.Signature{Signer: k.Pub, Signed: sg})
 	}
 	i := r.Intn(n)
 	if n > 1 && r.Intn(2) == 0 {
@@ -568,8 +626,7 @@ func genVB(r *rng.R, pool *keyPool) vbCase {
 			c.Signers[i] = nil
 		case "empty-signer-btcec-signed":
 			c.Signers[i] = keys.Address{}
-			h := sha256.Sum256(data)
-			sig = b.sign(h[:])
+			sig = b.sign(data)
 		case "btcec-unparseable":
 			c.Signers[i] = keys.Address{}
 			pk.Data[0] = 0x09
@@ -800,6 +857,74 @@ func evalVB(vc *vbCase, c int, res *Result, add func(op, im string, nt bool)) {
 	}
 	if code == "panic" {
 		hitOnce(res, "validatebasic-panic", c, vc.Class, ops)
+	}
+	if accepted {
+		messageChangeMonitor(vc, c, res)
+	}
+}
+
+var algNames = map[keys.Algorithm]string{keys.ED25519: "ed25519", keys.SECP256K1: "secp256k1", keys.BTCECSECP: "btcec", keys.ETHSECP: "ethsecp"}
+
+// messageChangeMonitor is algorithm independent and involves neither the model nor an oracle:
+// every (key, signature) of an ACCEPTED case is offered again, alone, for the message changed at
+// one position — inside the first 32 bytes, at or after byte 32, the last byte, one byte
+// appended, the last byte dropped — and must be rejected (assumption MessageBinding of the Lean
+// theorems accepted_signatures_bind_message / _transaction).
+func messageChangeMonitor(vc *vbCase, c int, res *Result) {
+	n := len(vc.Data)
+	if n == 0 {
+		return
+	}
+	// deterministic positions derived from the message itself
+	hd := sha256.Sum256(vc.Data)
+	pick := func(lo, hi int, salt byte) int { // position in [lo,hi)
+		return lo + (int(hd[salt])<<8|int(hd[salt+1]))%(hi-lo)
+	}
+	type change struct {
+		class string
+		data  []byte
+	}
+	flip := func(i int, bit byte) []byte {
+		d := append([]byte{}, vc.Data...)
+		d[i] ^= 1 << (bit % 8)
+		return d
+	}
+	var changes []change
+	lim := n
+	if lim > 32 {
+		lim = 32
+	}
+	changes = append(changes, change{"byte<32", flip(pick(0, lim, 0), hd[2])})
+	if n > 32 {
+		changes = append(changes, change{"byte>=32", flip(pick(32, n, 3), hd[5])})
+		changes = append(changes, change{"byte32", flip(32, hd[6])})
+	}
+	changes = append(changes, change{"last-byte", flip(n-1, hd[7])})
+	changes = append(changes, change{"appended", append(append([]byte{}, vc.Data...), hd[8])})
+	changes = append(changes, change{"truncated", append([]byte{}, vc.Data[:n-1]...)})
+	for i, g := range vc.Sigs {
+		if i >= len(vc.Signers) {
+			break
+		}
+		alg := algNames[g.Signer.KeyType]
+		for _, ch := range changes {
+			res.Distribution["msgchange:"+alg+":"+ch.class]++
+			var err error
+			func() {
+				defer func() {
+					if p := recover(); p != nil {
+						err = fmt.Errorf("panic: %v", p)
+					}
+				}()
+				err = action.ValidateBasic(ch.data, []action.Address{vc.Signers[i]}, []action.Signature{g})
+			}()
+			if err == nil {
+				one := &vbCase{Class: "msgchange", Data: ch.data, Signers: []action.Address{vc.Signers[i]}, Sigs: []action.Signature{g}}
+				hitOnce(res, "accepted-signature-survives-message-change:"+alg+":"+ch.class, c,
+					fmt.Sprintf("a signature accepted for a %d-byte message is accepted, under the same key, for the message with %s", n, ch.class),
+					[]string{"# the accepted original, then the changed message with the same key and signature", vbxLine(&vbCase{Data: vc.Data, Signers: one.Signers, Sigs: one.Sigs}), vbxLine(one)})
+			}
+		}
 	}
 }
 
